@@ -785,6 +785,9 @@ var c16NumSupplement = []string{
 	"123456789012345678901234567890", "-9223372036854775808", "-9223372036854775809",
 	"z", "Z", "zz", "g", "G", "7", "8", "2", "10", "11", "777", "ff", "FF", "Ff", "a.b", "1.5", "1.0", "10.", ".1", "1e1", "e", "1a", "z9",
 	"  42  ", "\t42\n", "4 2", "42 x", "x 42",
+	// white space that is not C-locale isspace: UTF-8 encoded Unicode spaces and their lone bytes
+	"\xc2\xa01", "1\xc2\xa0", "\xc2\xa01\xc2\xa0", "\xc2\x851", "1\xc2\x85", "\xe2\x80\x831", "1\xe2\x80\x83", "1\xe2\x80\xa8", "\xe2\x80\xa91", "\xe3\x80\x801", "1\xe3\x80\x80",
+	"\xe1\x9a\x801", "\xef\xbb\xbf1", "1\xef\xbb\xbf", "\xa01", "1\xa0", "\x851", "1\x85", " \xc2\xa0 1", "0x10\xc2\xa0", "1e1\xe2\x80\x83",
 }
 
 func c16RunNumerals(r *harness.Run, pool *c16Pool, maxLen int) {
